@@ -370,6 +370,15 @@ def import_name(ctx):
             return d[0] == "call" and d[1].endswith("::contains_key")
         et = bool_edges(b, loaded, True)
         ef = bool_edges(b, loaded, False)
+        # ... or `if let Some(p) = projects.get(&dir) { return .. }`
+        def is_map_get(o):
+            return o[0] == "call" and re.search(r"HashMap::<std::path::PathBuf, [\w:]*Project>::get(::<.*>)?$", callee_decl(o[3])) is not None
+        for e in b.edges:
+            if e.label and e.label[0] == "variant" and origin_matches(edge_origin(b, e), is_map_get):
+                if e.label[2] == ("Some",):
+                    et.append(e)
+                elif e.label[2] == ("None",):
+                    ef.append(e)
         recs = rec_sites(b)
         # recursion may sit in a closure of this fn (and_then): look at calls in nested closures too
         nested = [x for x in f.cg.reach([b.name], cross_spawn=False) if x.startswith(b.name + "::") or (x != b.name and x in ctx.r.origins_of_view(f.bodies[b.name]))]
@@ -379,7 +388,7 @@ def import_name(ctx):
         ctx.check(bool(et) and bool(ef) and all(rb in G for rb in recs) and bool(recs), f"{short(b.name)}/visited-test", [site(b, x) for x in recs] or [b.loc()],
                   "the import recursion is not cut by an 'already loaded' test: an import cycle recurses forever")
         # name checks: in this fn or its closures, the None edge of `name` and the `name != import_name` true edge give Err
-        bodies = [b] + [f.bodies[x] for x in nested]
+        bodies = [b] + [ctx.r.V(f.bodies[x]) for x in nested]   # views: a check extracted into a helper called from the closure is part of it
         none_err = ne_err = False
         behind = []
         # the import-name checks belong to the import *edge*: they must run after the recursive load of the imported directory, inside the loop over the
@@ -414,6 +423,29 @@ def import_name(ctx):
             for e in bool_edges(x, eq, False):
                 if any(bb in x.dominated_by_edge(e) for (bb, st) in x.aggregates("Result", "Err")):
                     ne_err = True
+        if behind:
+            # the checks are not on the import edge inside the loop: then the adder itself must apply them on *every* way it can return Ok (it is entered
+            # once per import edge) - also on the early return for an already loaded directory
+            check_blocks = {e.src for e in behind}
+            free = b.reach_from(0, avoid=tuple(check_blocks)) | {0}
+            ok_returns = [bb for (bb, st) in b.aggregates("Result", "Ok") if (st["lhs"]["local"] == 0 or 0 in b.prov.flows_forward(st["lhs"]["local"]))
+                          and b.locals[st["lhs"]["local"]]["ty"] == b.locals[0]["ty"]]
+            # not an import edge at all: the `None` case of an optional parameter of the adder (the root project is loaded without an import key)
+            not_import = set()
+            for e in b.edges:
+                if e.label and e.label[0] == "variant" and e.label[2] == ("None",) and e.label[3]:
+                    on = e.label[3]
+                    os_ = origins(b, on["local"])
+                    pj = [pr for pr in on["proj"] if pr["k"] != "deref"]
+                    if pj and pj[0]["k"] == "field" and pj[0].get("idx") is not None:
+                        # a component of a tuple built for a `match (a, b)`: the origins of that component
+                        os_ = [x for o in os_ if o[0] == "tuple" and pj[0]["idx"] < len(o[1]) for x in o[1][pj[0]["idx"]]]
+                        pj = pj[1:]
+                    if not pj and any(o[0] == "param" and b.locals[o[1]]["ty"].startswith("std::option::Option<") for o in os_):
+                        not_import |= b.dominated_by_edge(e)
+            ok_returns = [bb for bb in ok_returns if bb not in not_import]
+            if ok_returns and not [bb for bb in ok_returns if bb in free and bb not in check_blocks]:
+                behind = []
         ctx.check(not behind, f"{short(b.name)}/checked-on-every-import-edge", [site(b, e.src) for e in behind[:2]] or [b.loc()],
                   "the import-name checks sit behind the 'already loaded' early return: a project reached a second time (import cycle, diamond) under a wrong key is accepted, and the verdict depends on iteration order")
         ctx.check(none_err, f"{short(b.name)}/unnamed-import", [b.loc()], "an imported project without a name is accepted")
@@ -483,6 +515,11 @@ def _under_regex_match(b, bb):
         if e.label and e.label[0] == "variant" and e.label[2] == ("Some",) and origin_matches(edge_origin(b, e), lambda o: o[0] == "call" and o[1].endswith("Regex::captures")):
             if bb in b.dominated_by_edge(e):
                 return True
+    # `let caps = RE.captures(s)?` / `RE.captures(s).ok_or_else(..)?`: the Continue edge of the `?` is the match
+    for (tb, sb, ce, be) in try_edges(b):
+        if ce is not None and b.term(tb)["args"] and operand_local(b.term(tb)["args"][0]) is not None \
+                and origin_matches(origins(b, operand_local(b.term(tb)["args"][0])), lambda o: o[0] == "call" and o[1].endswith("Regex::captures")) and bb in b.dominated_by_edge(ce):
+            return True
     return False
 
 
@@ -498,6 +535,8 @@ def justified_panic_site(ctx, b, bb, kind, detail, roles):
         return "constant regex literal (its validity is a fact of the source; the literal itself is judged by C14.NAME-REGEX)"
     if kind == "unwrap" and "Option::<regex::Match" in detail and _under_regex_match(b, bb):
         return "group 1 exists whenever the constant regex matched"
+    if kind == "index" and "regex::Captures" in detail and "Index<usize>" in detail and _under_regex_match(b, bb) and len(args) > 1 and const_val(args[1]) in ("0_usize", "1_usize", "0", "1"):
+        return "group 1 exists whenever the constant regex matched (the literal itself is judged by C14.NAME-REGEX)"
     if kind == "unwrap" and re.search(r"Result::<[\w:]*TargetId", detail) and _under_regex_match(b, bb) and any(c in roles["parsers"] for c in atom_callres(at0)):
         return "the regex guarantees at most one `::` in the captured name, so the parser cannot fail"
     if kind == "index" and re.search(r"HashMap<[\w:]*TargetId, [\w:]*Target> as std::ops::Index", detail) and in_resolver:
